@@ -6,22 +6,75 @@ RULE = ("for each n up to the bound one z3 query over a symbolic vector of n tok
         "subtree) items or in the expression subtree? Witnesses are parsed by the real Rule::parse. distinct = distinct n")
 
 
+RULE_FILE = "src/parse/rule.rs"
+
+
+def builder_harnesses():
+    """Kani on the parts of RuleBuilder that CBMC can execute (no Vec<(String, Expr)> traversal): name and description
+    precedence between metadata and comment lines, and the missing-name error."""
+    from ..kani import Harness
+    hs = []
+    hs.append(Harness("builder_name_precedence", """
+        let has = inp.bool();
+        let rb = RuleBuilder { name: if has { Some(String::from("m")) } else { None }, expr: Expr::Value(Value::None), metadata: BTreeMap::new() };
+        let rb = rb.set_name("c");
+        vcover!(has, "name from metadata"); vcover!(!has, "name from the comment line");
+        assert!(matches!(&rb.name, Some(n) if n.as_bytes() == (if has { b"m" } else { b"c" })));
+        let r = rb.build();
+        show("rule", &r);
+        assert!(matches!(&r, Ok(rule) if rule.name().as_bytes() == (if has { b"m" } else { b"c" })));
+        std::mem::forget(r);""", unwind=4, meta={"claim": "@name (already set) wins over the first comment line; otherwise the comment line is the name"}))
+    hs.append(Harness("builder_missing_name", """
+        let rb = RuleBuilder { name: None, expr: Expr::Value(Value::None), metadata: BTreeMap::new() };
+        let r = rb.build();
+        assert!(matches!(&r, Err(Error::MissingRuleName)));
+        std::mem::forget(r);""", unwind=4, meta={"claim": "no name => the missing-name error"}))
+    hs.append(Harness("builder_description_from_comment", """
+        let rb = RuleBuilder { name: Some(String::from("m")), expr: Expr::Value(Value::None), metadata: BTreeMap::new() };
+        let rb = rb.set_description("d");
+        assert!(rb.metadata.len() == 1);
+        assert!(matches!(rb.metadata.get("description"), Some(Value::String(x)) if x.as_bytes() == b"d"));
+        std::mem::forget(rb);""", unwind=14, heavy=True, mandatory=False, meta={"claim": "comment description is stored when @description is absent"}))
+    hs.append(Harness("builder_description_precedence", """
+        let a = inp.i128();
+        let mut m = BTreeMap::new(); m.insert(String::from("description"), Value::Int(a));
+        let rb = RuleBuilder { name: Some(String::from("m")), expr: Expr::Value(Value::None), metadata: m };
+        let rb = rb.set_description("d");
+        assert!(rb.metadata.len() == 1);
+        assert!(matches!(rb.metadata.get("description"), Some(Value::Int(x)) if *x == a));
+        std::mem::forget(rb);""", unwind=14, heavy=True, mandatory=False, meta={"claim": "@description (even a non-string) wins over comment lines"}))
+    return hs
+
+
 def check(run, only=None):
     syn = synx.Syntax(run)
     helper = synx.Helper(run)
     n_max = 7 if run.tier == "quick" else 9
     budget = 420 if run.tier == "quick" else 3600
+    from ..kani import Overlay, decide, run_kani
+    bhs = builder_harnesses()
+    ov = Overlay(run, "c14")
+    for h in bhs:
+        ov.add(RULE_FILE, h)
+    ov.write()
+    res = run_kani(run, bhs, jobs=4, timeout_s=300 if run.tier == "quick" else 1500, tag="builder")
+    decide(run, bhs, res)
     reached = synx.equivalence(run, syn, helper, "Rule", n_max, budget)
     run.functions_encoded.update(["src/reval.lalrpop: Rule, MetaItem and every production reachable from them"])
     run.assumptions += ["lalrpop generates a parser for exactly the grammar it is given",
                         "tokens abstracted to one representative lexeme per class; the rule name is supplied by a fixed leading `// n` comment line",
                         f"bounded: token strings of length <= {reached}"]
-    run.outside_claim += ["name / description precedence, last-occurrence-wins, the missing-name error and comment-line extraction live in "
-                          "RuleBuilder and Rule::parse (consume Vec<(String, Expr)> / BTreeMap by value, regex lexer): not decided here"]
+    run.outside_claim += ["RuleBuilder::parse (traverses Vec<(String, Expr)>: no CBMC verdict in 900 s even for one entry): last-occurrence-wins, "
+                          "rejection of non-constant values and of a non-string @name are NOT decided",
+                          "comment-line extraction in Rule::parse (needs the regex lexer)"]
     run.extra["bounds"] = {"max_tokens": reached, "alphabet_size": len(syn.alphabet)}
     return run.finish(rule=RULE)
 
 
 def replay(run, path):
     import json
-    return synx.replay_text(run, json.load(open(path)), path)
+    rec = json.load(open(path))
+    if "harness" in rec["replay"]:
+        from ..replay import replay_file
+        return replay_file(run, path, gen_all=builder_harnesses, file=RULE_FILE, tag="c14")
+    return synx.replay_text(run, rec, path)
